@@ -52,9 +52,10 @@ def snapshot_orth(sc):
 def check_c03(repo, tier):
     run = Run('C03', tier, repo, 'TT.ortho_left / ortho_right / ortho interpreted from source over symbolic arrays (concrete order and sweep indices, symbolic ranks and mode sizes); '
               'orthonormality typestate, SVD provenance and rank facts on the result.')
-    run.rule('D1', 'after ortho_left(s, e) cores s..e are the reshaped U factors of thin SVDs of exactly the (rank x mode x mode | rank) unfolding of the core they replace '
-             '(left-orthonormal); mirrored for ortho_right; cores outside s..e+1 (resp. e-1..s) are untouched objects')
-    run.rule('D2', 'triple integrity: the neighbour receives diag(S) V (resp. U diag(S)) of the same decomposition through the bond index (typed chain)')
+    run.rule('D1', 'after ortho_left(s, e) the (rank x mode x mode | rank) unfolding X of each core s..e satisfies X^H X = I (orthonormality typestate of decomposition factors, or '
+             'rewriting of its matrix expression: U^H U, Q^H Q, V V^H -> I); mirrored for ortho_right; cores outside s..e+1 (resp. e-1..s) are untouched objects')
+    run.rule('D2', 'value preservation: for every step of the sweep (the stores between two matrix decompositions) the product of the unfoldings of the cores it touches has the '
+             'same normal form before and after (U diag(S) V -> X, Q R -> X, and their conjugate-transposed forms, for factors of ONE decomposition)')
     run.rule('D3', 'no rank increases: every new rank is bounded by the old one (thin SVD facts)')
     run.rule('D4', 'class invariant after the call; the object returned is the receiver')
     run.trusted = ['thin SVD returns factors with orthonormal columns/rows (LAPACK)', 'NumPy transfer functions']
@@ -109,44 +110,29 @@ def check_c03(repo, tier):
                         lo, ro, touched = [], list(range(e_, s_ + 1)), set(range(e_ - 1, s_ + 1)) if s_ >= e_ else set()
                     else:
                         lo, ro, touched = [], list(range(1, d)), set(range(d))
-                    bad = []
-                    for k in lo:
-                        if orth(cores[k]) != 'LO':
-                            bad.append(f'core {k} is not left-orthonormal (not the reshaped U factor of a thin SVD)')
-                        elif prov(cores[k]) and not _decomposes(prov(cores[k])['of'], sc, k, 'left'):
-                            bad.append(f'core {k}: the decomposed matrix is not the (rank*row*col) x rank unfolding of core {k}')
-                    for k in ro:
-                        if orth(cores[k]) != 'RO':
-                            bad.append(f'core {k} is not right-orthonormal (not the reshaped V factor of a thin SVD)')
-                        elif prov(cores[k]) and not _decomposes(prov(cores[k])['of'], sc, k, 'right'):
-                            bad.append(f'core {k}: the decomposed matrix is not the rank x (row*col*rank) unfolding of core {k}')
+                    bad, unknown = [], []
+                    for side, ks in (('LO', lo), ('RO', ro)):
+                        for k in ks:
+                            iso = l2rules.core_iso(cores[k], side)
+                            if iso is None:
+                                unknown.append(f'core {k}')
+                            elif not iso:
+                                bad.append(f'core {k} is not {"left" if side == "LO" else "right"}-orthonormal: its unfolding is  {show_unf(cores[k], side)}')
                     for k in range(d):
                         if k not in touched and cores[k] is not sc.old[k]:
                             bad.append(f'core {k} lies outside the requested sweep but was replaced')
+                    if unknown and not bad:
+                        raise AnalysisError(f'{scen}: orthonormality of {", ".join(unknown)} can neither be proved nor refuted (factors of unknown provenance)')
                     run.oblige('D1', (entry, scen), not bad, sample={'rule': 'D1', 'scenario': scen, 'orth_flags': [orth(c) for c in cores]} if d == 3 and role == 'op' and not rank1 and len(run.samples) < 6 else None)
                     if bad:
                         run.add(Finding('C03', 'D1', fn.where, 'orthonormality typestate', f'{scen}: ' + '; '.join(bad[:3]), fn.file, fn.node.lineno))
-                    # D2 triple integrity: after the orthonormal factor of a decomposition is stored in slot k, the next store into the
-                    # neighbouring slot must be computed from the other two factors of the same decomposition
-                    bad = []
-                    stores = [e for e in sc.events('core-store') if e['tt'] is a]
-                    for i, e in enumerate(stores):
-                        p = prov(e['value'])
-                        if p is None or p['role'] not in ('u', 'v') or orth(e['value']) is None:
-                            continue
-                        nb = e['slot'] + 1 if p['role'] == 'u' else e['slot'] - 1
-                        if not (0 <= nb < d):
-                            continue
-                        nxt = [f for f in stores[i + 1:] if f['slot'] == nb]
-                        if not nxt:
-                            bad.append(f'after core {e["slot"]} was replaced by an orthonormal factor, core {nb} is never updated with the remaining factors')
-                            continue
-                        ok, why = decomposition_partner_ok(sc, e['value'], nxt[0]['value'], p['role'])
-                        if not ok:
-                            bad.append(f'bond between cores {min(nb, e["slot"])} and {max(nb, e["slot"])}: {why}')
+                    # D2 value preservation: every step of the sweep (the stores between two decompositions) leaves the product of the cores it touches unchanged
+                    bad, unknown, nsteps = l2rules.value_preservation(sc, a, sc.old)
+                    if unknown and not bad:
+                        raise AnalysisError(f'{scen}: value preservation undecided: ' + '; '.join(unknown[:2]))
                     run.oblige('D2', (entry, scen), not bad)
                     if bad:
-                        run.add(Finding('C03', 'D2', fn.where, 'triple integrity', f'{scen}: ' + '; '.join(bad[:3]), fn.file, fn.node.lineno))
+                        run.add(Finding('C03', 'D2', fn.where, 'value preservation of a sweep step', f'{scen}: ' + '; '.join(bad[:2]), fn.file, fn.node.lineno))
                     # D3 ranks
                     bad = [f'rank {k}: {a._attrs["ranks"][k]} is not bounded by the old rank {sc.old_ranks[k]}' for k in range(d + 1)
                            if not l2rules.rank_le(sc, a._attrs['ranks'][k], sc.old_ranks[k])]
@@ -155,6 +141,28 @@ def check_c03(repo, tier):
                         run.add(Finding('C03', 'D3', fn.where, 'rank monotonicity', f'{scen}: ' + '; '.join(bad[:3]), fn.file, fn.node.lineno))
     run.floor('obligations decided', run.obligations, 100)
     return run
+
+
+def working_object(sc):
+    """(the tensor-train object whose core list received the stores of this scenario, its cores before the first store)"""
+    insts = {}
+    for e in sc.events('core-store'):
+        insts.setdefault(id(e['tt']), [e['tt'], 0])[1] += 1
+    if not insts:
+        return None, None
+    t_obj = max(insts.values(), key=lambda x: x[1])[0]
+    cur = list(t_obj._attrs['cores'])
+    for e in reversed([e for e in sc.events('core-store') if e['tt'] is t_obj]):
+        if 0 <= e['slot'] < len(cur):
+            cur[e['slot']] = e['old']
+    return t_obj, cur
+
+
+def show_unf(core, side):
+    from . import mx
+    from .shape import sz_prod
+    rows = sz_prod(core.shape[:-1]) if side == 'LO' else core.shape[0]
+    return mx.show(mx.canon(A.unfolding_mx(core, rows)))
 
 
 def sc_prev_core(sc, inst, k):
@@ -329,9 +337,11 @@ def truncation_sites(run, repo, tier):
 # ------------------------------------------------------------------------------------------------ C05
 def check_c05(repo, tier):
     run = Run('C05', tier, repo, 'TT.svd / TT.pinv interpreted from source over symbolic arrays; typestate of the returned factors, leg typing of the reconstruction, frame.')
-    run.rule('D1', 'svd(index): u consists of left-orthonormal factors only, v of right-orthonormal factors only (with both ortho flags); the central decomposition acts on the '
-             '(rank*row | rank) unfolding of core index-1; s has the size of the central bond; u, diag(s), v chain through that bond without conjugation mismatch')
-    run.rule('D2', 'pinv: diag(1/s) of the same decomposition is contracted into the bond between u and v; no factor is conjugated; result is one chain of order d')
+    run.rule('D1', 'svd(index): with the ortho flags the cores of u are left isometries and those of v right isometries (typestate or rewriting X^H X -> I); s is the vector of singular '
+             'values of a decomposition and has the size of the central bond; every sweep step preserves the value, and (last core of u) diag(s) (first core of v) has the normal form of '
+             'the product of the two cores it replaces (after undoing the truncation selectors, which must be the same on all three factors)')
+    run.rule('D2', 'pinv: every sweep step preserves the value; replacing diag(1/s) by diag(s) in the two central cores of the result gives the normal form of the product of the cores the '
+             'central decomposition replaced (so 1/s belongs to that decomposition, sits on its bond, and nothing is conjugated or transposed); the other cores are those of the orthonormalised train')
     run.rule('D3', 'frame: with overwrite=False the receiver is untouched (object identity of its cores) and shares no buffer with the results; Layer-1 rule on svd/pinv')
     run.trusted = ['thin SVD facts', 'NumPy transfer functions']
     orders = (2, 3, 4, 5) if tier == 'thorough' else (2, 3, 4)
@@ -371,37 +381,55 @@ def check_c05(repo, tier):
                     ok = l2rules.invariant_obligation(run, 'C05', 'D1', repo, sc, u, entry, scen, 'left factor u') and l2rules.invariant_obligation(run, 'C05', 'D1', repo, sc, v, entry, scen, 'right factor v')
                     if not ok:
                         continue
-                    bad = []
-                    if ol:
-                        bad += [f'core {k} of u is not a left-orthonormal factor' for k, c in enumerate(u._attrs['cores']) if orth(c) != 'LO']
-                    else:
-                        bad += [] if orth(u._attrs['cores'][-1]) == 'LO' else ['the last core of u is not the U factor of the central decomposition']
-                    if orr:
-                        bad += [f'core {k} of v is not a right-orthonormal factor' for k, c in enumerate(v._attrs['cores']) if orth(c) != 'RO' and k > 0]
+                    bad, unknown = [], []
+                    uc, vc = u._attrs['cores'], v._attrs['cores']
+                    want_lo = list(range(len(uc))) if ol else [len(uc) - 1]
+                    want_ro = list(range(len(vc))) if orr else []
+                    for side, cs, ks, nm in (('LO', uc, want_lo, 'u'), ('RO', vc, want_ro, 'v')):
+                        for k in ks:
+                            iso = l2rules.core_iso(cs[k], side)
+                            if iso is None:
+                                unknown.append(f'orthonormality of core {k} of {nm}')
+                            elif not iso:
+                                bad.append(f'core {k} of {nm} is not a {"left" if side == "LO" else "right"}-orthonormal factor: its unfolding is  {show_unf(cs[k], side)}')
                     if u._attrs['order'] != index or v._attrs['order'] != d - index:
                         bad.append(f'u has order {u._attrs["order"]}, v has order {v._attrs["order"]} for index {index} of {d}')
                     if not (isinstance(s, Arr) and s.ndim == 1 and sz_eq(s.shape[0], u._attrs['ranks'][-1]) and sz_eq(s.shape[0], v._attrs['ranks'][0])):
                         bad.append(f's has shape {getattr(s, "shape", None)} but the central bond has rank {u._attrs["ranks"][-1]} / {v._attrs["ranks"][0]}')
                     else:
-                        # bond identity: last leg of u, leg of s, first leg of v
-                        lu, ls, lv = u._attrs['cores'][-1].legs[3], s.legs[0], v._attrs['cores'][0].legs[0]
-                        if not (len(lu) == len(ls) == len(lv) and all(x.same(y) and y.same(z) for x, y, z in zip(lu, ls, lv))):
-                            bad.append(f'u, s and v do not meet in one bond: {list(lu)} / {list(ls)} / {list(lv)}')
-                        pu, ps = prov(u._attrs['cores'][-1]), prov(s)
-                        if not (pu and ps and pu['svd'] == ps['svd'] and pu['role'] == 'u'):
-                            bad.append('the last core of u and s do not stem from one decomposition')
+                        # u diag(s) v multiplies back to the tensor: every sweep step preserves the value, and in the central step the product
+                        # (last core of u) diag(s) (first core of v) equals the product of the two cores it replaces (after undoing the truncation, if any)
+                        from . import mx
+                        t_obj, init = working_object(sc)
+                        steps = l2rules.sweep_steps(sc, t_obj, init) if t_obj is not None else []
+                        if not steps:
+                            unknown.append('no stores into a working copy were found')
                         else:
-                            anc = A.ancestors([v._attrs['cores'][0]])
-                            if not any(prov(x) and prov(x)['svd'] == pu['svd'] and prov(x)['role'] == 'v' for x in anc.values()):
-                                bad.append('the first core of v is not computed from the V factor of the central decomposition')
-                    for k, c in enumerate(list(u._attrs['cores']) + list(v._attrs['cores'])):
-                        for g in (c.legs[0], c.legs[3]):
-                            for l in g:
-                                if l.resolve().kind == 'R' and l.resolve().conj:
-                                    bad.append(f'core {k} of the factors carries a conjugated bond')
+                            sb, su, _n = l2rules.value_preservation(sc, t_obj, init, truncating=trunc, skip_last=True)
+                            bad += sb
+                            unknown += su
+                            slots, before, after = steps[-1]
+                            ms = s.tags.get('mx')
+                            if slots != [index - 1, index] or after[index - 1] is not uc[-1] or after[index] is not vc[0]:
+                                unknown.append(f'the last step stores into cores {slots}, not into the two central cores that are returned')
+                            elif ms is None or len(ms) != 1 or ms[0][0] != 'S':
+                                unknown.append('the returned s is not recognisably the vector of singular values of a decomposition')
+                            else:
+                                from .shape import sz_prod
+                                prod = mx.mul(mx.mul(A.unfolding_mx(uc[-1], sz_prod(uc[-1].shape[:-1])), ms), A.unfolding_mx(vc[0], vc[0].shape[0]))
+                                prod = mx.untruncate(prod) if trunc else mx.canon(prod)
+                                want = mx.canon(l2rules.pair_mx(before[index - 1], before[index]))
+                                if prod is None:
+                                    unknown.append('truncated factors of an unregistered decomposition')
+                                elif prod != want:
+                                    new_atoms = {f[:2] for f in prod if f[0] == 'src'} - {f[:2] for f in want if f[0] == 'src'}
+                                    (unknown if new_atoms else bad).append(f'u diag(s) v gives  {mx.show(prod)}  but the cores it replaces give  {mx.show(want)}')
+                    for k, c in enumerate(list(uc) + list(vc)):
                         for l in c.legs[1]:
                             if l.resolve().kind == 'M' and (l.resolve().var != +1 or l.resolve().key != k):
                                 bad.append(f'core {k} of the factors carries mode index {l}')
+                    if unknown and not bad:
+                        raise AnalysisError(f'{scen}: undecided: ' + '; '.join(unknown[:2]))
                     run.oblige('D1', (entry, scen), not bad, sample={'rule': 'D1', 'scenario': scen, 'u': [orth(c) for c in u._attrs['cores']], 'v': [orth(c) for c in v._attrs['cores']]} if d == 3 and ol and orr and not trunc and not rank1 else None)
                     if bad:
                         run.add(finding(entry, 'D1 structure of the global SVD', f'{scen}: ' + '; '.join(sorted(set(bad))[:4])))
@@ -433,22 +461,43 @@ def check_c05(repo, tier):
                     if res._attrs['order'] != d:
                         bad.append(f'order {res._attrs["order"]} instead of {d}')
                     else:
-                        c = res._attrs['cores'][index]
-                        anc = A.ancestors([c])
-                        recs = [x for x in anc.values() if 'reciprocal_of' in x.tags]
-                        if not recs:
-                            bad.append(f'core {index} is not multiplied by the reciprocal singular values')
+                        # the pseudoinverse has the structure of the reconstruction with the singular values inverted: replacing diag(1/s) by diag(s) in the
+                        # two central cores must give back the product of the cores the central decomposition replaced; all sweep steps preserve the value
+                        from . import mx
+                        unknown = []
+                        t_obj, init = working_object(sc)
+                        steps = l2rules.sweep_steps(sc, t_obj, init) if t_obj is not None else []
+                        if not steps:
+                            unknown.append('no stores into a working copy were found')
                         else:
-                            svals = recs[0].tags['reciprocal_of']
-                            ps = prov(svals)
-                            pu = prov(res._attrs['cores'][index - 1])
-                            if not (ps and pu and ps['svd'] == pu['svd'] and ps['role'] == 's'):
-                                bad.append('the reciprocal is not taken of the singular values of the central decomposition')
-                        for k, cc in enumerate(res._attrs['cores']):
-                            for g in (cc.legs[0], cc.legs[3]):
-                                for l in g:
-                                    if l.resolve().kind == 'R' and l.resolve().conj:
-                                        bad.append(f'core {k} is conjugated')
+                            sb, su, _n = l2rules.value_preservation(sc, t_obj, init, truncating=trunc, skip_last=True)
+                            bad += sb
+                            unknown += su
+                            slots, before, after = steps[-1]
+                            rc = res._attrs['cores']
+                            got = l2rules.pair_mx(rc[index - 1], rc[index])
+                            if slots != [index - 1, index] or got is None:
+                                unknown.append(f'the last step stores into cores {slots}')
+                            else:
+                                if not any(f[0] == 'Sinv' for f in mx.canon(got)):
+                                    (bad if mx.fully_known(tuple(f for f in mx.canon(got) if f[0] != 'src' or True)) and any(f[0] == 'S' for f in mx.canon(got)) else unknown).append(
+                                        f'the central cores are  {mx.show(mx.canon(got))}: no multiplication by the reciprocal singular values is recognisable')
+                                else:
+                                    sw = mx.swap_inverse(mx.canon(got))
+                                    sw = mx.untruncate(sw) if trunc else mx.canon(sw)
+                                    want = mx.canon(l2rules.pair_mx(before[index - 1], before[index]))
+                                    if sw is None:
+                                        unknown.append('truncated factors of an unregistered decomposition')
+                                    elif sw != want:
+                                        new_atoms = {f[:2] for f in sw if f[0] == 'src'} - {f[:2] for f in want if f[0] == 'src'}
+                                        (unknown if new_atoms else bad).append(f'with diag(1/s) replaced by diag(s) the central cores give  {mx.show(sw)}  but the cores they replace give  {mx.show(want)}')
+                                for j in range(d):
+                                    if j not in (index - 1, index) and rc[j] is not after[j]:
+                                        mj, aj = A.unfolding_mx(rc[j], rc[j].shape[0]), A.unfolding_mx(after[j], after[j].shape[0])
+                                        if mx.canon(mj) != mx.canon(aj):
+                                            unknown.append(f'core {j} of the result is not the corresponding core of the orthonormalised train')
+                        if unknown and not bad:
+                            raise AnalysisError(f'{scen}: undecided: ' + '; '.join(unknown[:2]))
                     run.oblige('D2', (entry, scen), not bad)
                     if bad:
                         run.add(finding(entry, 'D2 structure of the pseudoinverse', f'{scen}: ' + '; '.join(sorted(set(bad))[:3])))
